@@ -9,7 +9,7 @@ import json, subprocess
 import vlib, sess
 from astlib import *
 
-SHAPES = ("globals", "locals", "jump")
+SHAPES = ("globals", "locals", "jump", "refused-then-continue")
 
 
 def script(shape, n):
@@ -34,6 +34,23 @@ def script(shape, n):
     if shape == "jump":
         body = "\n".join("l = 1" for _ in range(n))
         return ["f = () -> {\n%s\nl\n}" % body, "f()", "1 + 1"], None
+    if shape == "refused-then-continue":
+        # a function with more distinct locals than can be addressed (refused whatever the compiler's economy), whose body is the
+        # first place two global names are mentioned; the session then goes on using those names and others
+        names = []
+        k = 0
+        while len(names) < n:
+            sfx, m = "", k
+            while True:
+                sfx = chr(97 + m % 26) + sfx
+                m //= 26
+                if m == 0:
+                    break
+            k += 1
+            names.append("w" + sfx + "q")
+        body = "\n".join("%s = 7" % nm for nm in names)
+        return ["x = 1", "f = () -> {\nfirst = gnewa + gnewb\n%s\nfirst\n}" % body, "count = 1", "gnewa = 100", "[count, gnewa]", "count = count + 1", "gnewb = 5",
+                "[count, gnewa, gnewb, x]", "1 + 1"], None
     raise ValueError(shape)
 
 
@@ -86,8 +103,8 @@ def run(tier, replay=None):
     for v in vecs[:: max(1, len(vecs) // 4)][:4]:
         ck.sample(v)
     # ---- scripts crossing the limits
-    sizes = {"quick": {"globals": [16300, 16400], "locals": [32700, 32800], "jump": [32700, 32800]},
-             "thorough": {"globals": [16000, 16370, 16380, 16390, 16400, 20000, 33000], "locals": [32000, 32760, 32766, 32770, 33000, 65530, 65540], "jump": [32000, 32760, 32770, 33000, 65530, 65540]}}[tier]
+    sizes = {"quick": {"globals": [8000, 16300, 16400], "locals": [16000, 32700, 32800], "jump": [16000, 32700, 32800], "refused-then-continue": [33000]},
+             "thorough": {"globals": [4000, 8000, 16000, 16370, 16380, 16390, 16400, 20000, 33000], "locals": [8000, 16000, 32000, 32760, 32766, 32770, 33000, 65530, 65540], "jump": [8000, 16000, 32000, 32760, 32770, 33000, 65530, 65540], "refused-then-continue": [32769, 33000, 66000]}}[tier]
     # ds0: data segment size after the built-ins are loaded, measured on the real pipeline
     probe = vlib.run_real([{"id": 1, "items": [{"src": "1"}], "stdin": []}])
     cases = []
@@ -101,7 +118,7 @@ def run(tier, replay=None):
     # accounting verdicts from the model
     acct = "\n".join(json.dumps({"id": c[3]["id"], "shape": c[0], "n": c[1]}) for c in cases) + "\n"
     mc = ("---- MODULE BytecodeAcct ----\nEXTENDS Bytecode\nCONSTANT DS0\nCases == ndJsonDeserialize(\"acct.ndjson\")\nVARIABLE i\n"
-          "AInit == i = 0 /\\ kind = \"acct\" /\\ v = 0 /\\ done = TRUE\nANext == i < Len(Cases) /\\ i' = i + 1 /\\ UNCHANGED <<kind, v, done>> /\\ PrintT(\"ACCT \" \\o ToJson([id |-> Cases[i + 1].id, work |-> MustWork(Cases[i + 1].shape, Cases[i + 1].n, DS0), refuse |-> MustRefuse(Cases[i + 1].shape, Cases[i + 1].n, DS0)]))\n====\n")
+          "AInit == i = 0 /\\ kind = \"acct\" /\\ v = 0 /\\ done = TRUE\nANext == i < Len(Cases) /\\ i' = i + 1 /\\ UNCHANGED <<kind, v, done>> /\\ PrintT(\"ACCT \" \\o ToJson([id |-> Cases[i + 1].id, work |-> MustWork(Cases[i + 1].shape, Cases[i + 1].n, DS0), refuse |-> MustRefuse(Cases[i + 1].shape, Cases[i + 1].n, DS0), overflows |-> Overflows(Cases[i + 1].shape, Cases[i + 1].n, DS0)]))\n====\n")
     ds0 = probe[1][0]["ds"][0]
     ck.part("data segment after the built-ins", ds0=ds0)
     cfg = "INIT AInit\nNEXT ANext\nCONSTANT AddrSet = \"quick\"\nCONSTANT DS0 = %d\nCHECK_DEADLOCK FALSE\n" % ds0
@@ -144,6 +161,17 @@ def run(tier, replay=None):
             xo = res[n]
             if desc is None and xo["kind"] == "val" and xo["val"] != {"k": "int", "v": lastok}:
                 desc = "after the script x is %s, the last accepted assignment was x = %d" % (json.dumps(xo["val"]), lastok)
+        elif shape == "refused-then-continue":
+            want_vals = [{"k": "int", "v": 1}, None, {"k": "int", "v": 1}, {"k": "int", "v": 100}, {"k": "arr", "v": [{"k": "int", "v": 1}, {"k": "int", "v": 100}]}, {"k": "int", "v": 2}, {"k": "int", "v": 5},
+                         {"k": "arr", "v": [{"k": "int", "v": 2}, {"k": "int", "v": 100}, {"k": "int", "v": 5}, {"k": "int", "v": 1}]}, I2]
+            if res[1].get("kind") != "cerr":
+                desc = "a function with %d distinct locals was not refused at compile time: %s" % (n, json.dumps({k: res[1].get(k) for k in ("kind", "msg", "err")}))
+            else:
+                for j, w in enumerate(want_vals):
+                    if w is not None and res[j].get("val") != w:
+                        desc = "after a refused statement the session does not go on as if it had not been entered: statement %d (%s) gives %s, expected %s" % (
+                            j + 1, s["items"][j]["src"][:40], json.dumps({k: res[j].get(k) for k in ("kind", "val", "err", "msg")})[:200], json.dumps(w))
+                        break
         else:
             d0, d1, d2 = res[0], res[1], res[2]
             if d0["kind"] == "val":
@@ -157,14 +185,15 @@ def run(tier, replay=None):
             if v["work"] and refused:
                 desc = "a script within the addressable limits was refused: %s" % refused[0].get("msg")
             elif v["refuse"] and not refused:
-                desc = "a script beyond the addressable limits was accepted"
+                desc = "a function with more distinct locals than an operand can address was accepted"
         if desc:
             ck.violation("script shape %s with n=%d: %s" % (shape, n, desc), {"shape": shape, "n": n, "real": [{k: o.get(k) for k in ("kind", "msg", "err", "phase", "site", "val")} for o in res[-3:]]})
-        ck.part("script %s n=%d" % (shape, n), outcome="worked" if worked else ("refused" if refused else "other"), must_work=v["work"], must_refuse=v["refuse"])
+        ck.part("script %s n=%d" % (shape, n), outcome="worked" if worked else ("refused" if refused else "other"), must_work=v["work"], must_refuse=v["refuse"], overflows_in_the_current_compiler=v["overflows"])
     ck.cov["exhaustive"] = True
     ck.cov["rule"] = ("vectors: opcodes x selector x 8 kinds x addresses around 0, +-2^15, +-2^16 x a second operand in another field; function values at the field boundaries; "
                       "non-trivial = address within 3 of a field boundary or a function value.  Scripts: n global assignments / a function with n locals / a function and an if whose bodies "
-                      "have n statements, with n on both sides of 2^15 (and 2^16)")
+                      "have n statements, with n at half the limit (must work), and on both sides of 2^15 (and 2^16) (either outcome, an accepted script must compute the right values; "
+                      "more distinct locals than an operand can address must be refused)")
     ck.assumptions += ["the four-limb model is an exact re-encoding of the 64-bit word", "ds0 (data-segment entries used by the built-ins) is measured on the real pipeline and passed to the accounting model",
                        "function-value counts beyond 16 bits cannot be produced by the compiler (operand addresses limit locals first)"]
     return ck.finish()
